@@ -31,6 +31,10 @@ pub struct Scn {
     /// pause and resume while every worker is saturated and clients are queued
     pub pause_resume: bool,
     pub release_while_paused: bool,
+    /// before anything else one worker (the one in the first slot of the accept thread's handle list) dies and is
+    /// replaced: the handle list is then no longer in index order ([W-1, 1, .., 0']), which is the state a long-running
+    /// server is in after any fault. Not used for C02 (which is only stated for fault-free histories).
+    pub prior_fault: bool,
 }
 
 impl Scn {
@@ -54,14 +58,15 @@ impl Scn {
             failpoints: r.chance(1, 2),
             pause_resume: r.chance(1, 2),
             release_while_paused: r.chance(1, 2),
+            prior_fault: workers >= 2 && r.chance(1, 4),
         }
     }
     pub fn to_json(&self) -> Value {
         json!({"case_seed": self.seed, "workers": self.workers, "limit": self.limit, "listeners": format!("{:?}", self.listeners),
-               "rt": format!("{:?}", self.rt), "queued": self.queued, "stress": self.stress, "failpoints": self.failpoints, "pause_resume": self.pause_resume, "release_while_paused": self.release_while_paused})
+               "rt": format!("{:?}", self.rt), "queued": self.queued, "stress": self.stress, "failpoints": self.failpoints, "pause_resume": self.pause_resume, "release_while_paused": self.release_while_paused, "prior_fault": self.prior_fault})
     }
     pub fn shape(&self) -> String {
-        format!("w{} l{} {:?} {:?} q{} s{} f{} pr{}", self.workers, self.limit, self.listeners, self.rt, self.queued, self.stress as u8, self.failpoints as u8, self.pause_resume as u8 + 2 * (self.release_while_paused as u8))
+        format!("w{} l{} {:?} {:?} q{} s{} f{} pr{}", self.workers, self.limit, self.listeners, self.rt, self.queued, self.stress as u8, self.failpoints as u8, self.pause_resume as u8 + 2 * (self.release_while_paused as u8) + 4 * (self.prior_fault as u8))
     }
 }
 
@@ -83,6 +88,8 @@ pub struct Seen {
     pub stress_phases: u64,
     pub pause_resume_while_saturated: u64,
     pub releases_while_paused: u64,
+    pub prior_fault_preludes: u64,
+    pub avail_bit_checks: u64,
 }
 
 pub enum Outcome {
@@ -149,15 +156,42 @@ fn quiescent_check(w: &World, snap: &Snapshot, what: &str, seen: &mut Seen, fail
             ),
         ));
     }
-    // C04: the accept thread's availability bit of a worker below its limit must be set at quiescence
-    // (otherwise it is skipped by the rotation although it could take work)
-    for idx in &snap.handles {
-        let inflight = *c.in_flight.get(idx).unwrap_or(&0);
-        let bit = snap.avail.get(*idx).copied().unwrap_or(false);
-        if inflight >= w.limit as i64 && bit && pending > 0 {
-            // a saturated worker marked available would receive the next connection: reported by C02's bound when it happens
+    // C04: at quiescence (every release notification processed) the accept thread's availability bit of each live worker
+    // agrees with that worker's own counter as the accept thread reads it in the same snapshot: below the limit => in the
+    // rotation, at the limit => skipped. A stuck-clear bit makes the rotation skip a worker that could take work; a
+    // stuck-set bit hands a saturated worker the next connection.
+    for (idx, total) in &snap.counters {
+        if *total > (1 << 40) {
+            continue;
         }
-        let _ = bit;
+        let bit = snap.avail.get(*idx).copied().unwrap_or(false);
+        seen.avail_bit_checks += 1;
+        if (*total as usize) < w.limit && !bit {
+            fails.push(fail(
+                "C04:free-worker-marked-unavailable",
+                format!(
+                    "{what}: quiescent point: worker {idx} has {total} connection(s) in progress (limit {}) but its availability bit is clear, so the rotation skips it; handles {:?} avail bits {:?} counters {:?}; last events: {:?}",
+                    w.limit,
+                    snap.handles,
+                    snap.avail.iter().take(w.workers.max(idx + 1)).collect::<Vec<_>>(),
+                    snap.counters,
+                    monitor::tail(&log, 10)
+                ),
+            ));
+        }
+        if (*total as usize) >= w.limit && bit {
+            fails.push(fail(
+                "C04:saturated-worker-marked-available",
+                format!(
+                    "{what}: quiescent point: worker {idx} has {total} connection(s) in progress (limit {}) but its availability bit is set: it receives the next connection; handles {:?} avail bits {:?} counters {:?}; last events: {:?}",
+                    w.limit,
+                    snap.handles,
+                    snap.avail.iter().take(w.workers.max(idx + 1)).collect::<Vec<_>>(),
+                    snap.counters,
+                    monitor::tail(&log, 10)
+                ),
+            ));
+        }
     }
 }
 
@@ -295,6 +329,47 @@ pub fn run_scenario(scn: &Scn, seen: &mut Seen) -> Outcome {
     let cap = scn.workers * scn.limit;
 
     let result = (|| -> Result<(), Outcome> {
+        // ---- prelude: a worker dies and is replaced before the scenario proper
+        if scn.prior_fault && scn.workers >= 2 {
+            w.run.ctls[0].inner.lock().unwrap().panic_next_call = true;
+            // the first connection goes to the first slot of the handle list; its call panics and takes the worker down
+            let victim = Client::connect(&w.run.addrs[0], 0, b'F').map_err(|e| Outcome::Inconclusive(format!("prelude connect: {e}")))?;
+            let adopted = |l: &[verif::Rec]| l.iter().any(|r| matches!(&r.ev, Ev::Interest { kind: "worker", .. }));
+            let mut probes: Vec<Client> = Vec::new();
+            let t0 = Instant::now();
+            // the death is discovered by a later dispatch to that worker: keep clients arriving until the replacement is in
+            while !verif::with_log(|l| adopted(l)) && t0.elapsed() < Duration::from_secs(10) {
+                if let Ok(mut c) = Client::connect(&w.run.addrs[0], 0, b'F') {
+                    let t1 = Instant::now();
+                    while c.poll_ack(Duration::from_millis(10)) == Ack::NotYet && t1.elapsed() < Duration::from_millis(200) {}
+                    probes.push(c);
+                }
+                thread::sleep(Duration::from_millis(10));
+            }
+            if !verif::with_log(|l| adopted(l)) {
+                return Err(Outcome::Inconclusive("prelude: no replacement worker adopted within 10 s".into()));
+            }
+            victim.close();
+            for c in probes {
+                close_and_wait(c)?;
+            }
+            // let the dying worker finish unwinding and every release of the probes reach the accept thread, then start
+            // the history afresh: the bookkeeping of the barrier (every dispatch reaches a call) does not hold across a fault
+            thread::sleep(Duration::from_millis(150));
+            let _ = w.run.accept_barrier(false);
+            thread::sleep(Duration::from_millis(50));
+            match w.run.accept_barrier(false) {
+                Ok(snap) => {
+                    if snap.handles.len() != scn.workers {
+                        return Err(Outcome::Inconclusive(format!("prelude: {} handles after the replacement", snap.handles.len())));
+                    }
+                }
+                Err(_) => return Err(Outcome::Inconclusive("prelude: accept thread did not answer".into())),
+            }
+            verif::start_recording();
+            seen.prior_fault_preludes += 1;
+        }
+
         // ---- phase A: unsaturated round-robin (sequential clients: order known at the boundary too)
         let first = scn.workers.min(cap);
         let mut order: Vec<usize> = Vec::new();
